@@ -59,7 +59,7 @@ bool Program::parse(const std::string& txt, std::string& err)
         }
         if (w[0] == "domain") {
             std::vector<int> d;
-            for (size_t i = 1; i < w.size(); i++) { int s = atoi(w[i].c_str()); if (s < 2 || s > 64) { err = "bad domain size"; return false; } d.push_back(s); }
+            for (size_t i = 1; i < w.size(); i++) { int s = atoi(w[i].c_str()); if (s < 1 || s > 64) { err = "bad domain size"; return false; } d.push_back(s); }
             if (d.empty() || d.size() > 8) { err = "bad domain"; return false; }
             domains.push_back(d);
             continue;
